@@ -2,5 +2,6 @@ import DDS.Props.All
 import DDS.Props.Lift
 import DDS.Props.Lift2
 import DDS.Props.C12x
+import DDS.Props.Lift3
 import DDS.Props.NonVacuity
 import DDS.Driver
